@@ -16,7 +16,8 @@ RULE = (
     "cases: manifold tiny tables (<=2 faces quick, <=3 faces thorough, walked completely) and seeded random "
     "meshes (closed, partial with holes, isolated faces, single face, valence up to 10+, renumbered) x "
     "first-access order of node_face/edge_face/face_face/hole_edge_indices, plus grids whose source supplies "
-    "edge_node+face_edge tables in a shuffled edge numbering (derived tables built on supplied ones). "
+    "edge_node+face_edge tables in a shuffled edge numbering (derived tables built on supplied ones), MPAS sources that ship all "
+    "incidence tables (zero or repeated-entry padding), table memory layouts C/F/transposed/strided. "
     "Non-trivial = has a boundary edge, or an isolated face, or a node of valence >= 5, or a supplied table."
 )
 ASSUMPTIONS = [
@@ -45,7 +46,8 @@ def cases(tier, seed):
         mf = maxf if i % 10 == 0 else min(maxf, 150)
         d = gen.random_mesh(rng, mf)
         yield {"kind": "mesh", "mesh": d, "order": int(rng.integers(0, len(ORDERS))),
-               "supplied": bool(rng.random() < 0.3), "sseed": int(rng.integers(0, 10**6))}
+               "supplied": bool(rng.random() < 0.3), "sseed": int(rng.integers(0, 10**6)),
+               "source": "mpas" if i % 5 == 4 else "topology", "layout": ux.LAYOUTS[int(rng.integers(0, 4))] if rng.random() < 0.4 else "C"}
 
 
 def check_grid(ctx, grid, faces, n_node, order, sig):
@@ -69,7 +71,10 @@ def check_grid(ctx, grid, faces, n_node, order, sig):
 
     # standard integer type and padding value for every table
     for name, tgt in (("node_face_connectivity", n_face), ("edge_face_connectivity", n_face), ("face_face_connectivity", n_face)):
-        probs = ux.standard_table(obs[name], tgt)
+        # the statement demands the standard integer type and padding value; the position of padding is demanded only
+        # for edge_face (one face followed by padding) - a source-supplied face_face table (MPAS cellsOnCell of a regional
+        # mesh) legitimately carries "no neighbour" in the slot of the boundary edge
+        probs = ux.standard_table(obs[name], tgt, padding_position=(name == "edge_face_connectivity"))
         ctx.check("std_form", not probs, dict(sig, table=name, problem=probs[0].split("=")[0] if probs else ""), {"problems": probs})
     he = obs["hole_edge_indices"]
     hv = np.asarray(he.values if hasattr(he, "values") else he)
@@ -166,8 +171,23 @@ def run_case(ctx, case):
         for i, f in enumerate(m.faces):
             fe[i, : len(f)] = [eid[e] for e in ref.face_edges(f)]
         extra = {"edge_node_connectivity": en, "face_edge_connectivity": fe}
-    g = ux.grid_from_mesh(m, extra=extra)
-    sig = {"supplied": bool(extra), "isolated": ft["isolated"]}
+    source = case.get("source", "topology")
+    if source == "mpas" and ref.is_manifold(m.faces):
+        # an MPAS source ships every incidence table itself (1-based, padded by zeros or by repeating the last entry)
+        from .. import dialects
+
+        ds, info = dialects.mpas_dataset(m, np.random.default_rng(case["sseed"]), force={"optional_tables": True})
+        try:
+            g = U.open_grid(ds)
+        except Exception as e:
+            ctx.check("no_exception", False, {"stage": "open_mpas", "exc": core.exc_sig(e)}, {"exc": repr(e), "mesh": case["mesh"]})
+            return
+        extra = {"mpas": info["dial"]["padding"]}
+        ctx.observe("mesh_from_mpas_source_padding_" + info["dial"]["padding"])
+        sig = {"supplied": "mpas", "isolated": ft["isolated"], "padding": info["dial"]["padding"]}
+    else:
+        g = ux.grid_from_mesh(m, extra=extra, layout=case.get("layout", "C"))
+        sig = {"supplied": bool(extra), "isolated": ft["isolated"], "layout": case.get("layout", "C")}
     check_grid(ctx, g, m.faces, m.n_node, case["order"], sig)
     if ft["boundary"] or ft["isolated"] or ft["valence5"] or extra:
         ctx.mark_nontrivial()
